@@ -89,8 +89,10 @@ def generate(sigs):
                 '\t\t\tcase "direct":', "\t\t\t\t%szoo.T%d(%s)" % (assign, k, args),
                 '\t\t\tcase "value":', "\t\t\t\tf := zoo.T%d" % k, "\t\t\t\t%sf(%s)" % (assign, args),
                 '\t\t\tcase "defer":', "\t\t\t\tfunc() {", "\t\t\t\t\tdefer func() { %szoo.T%d(%s) }()" % (assign, k, args), "\t\t\t\t}()",
-                '\t\t\tcase "go":', "\t\t\t\tdone := make(chan struct{})", "\t\t\t\tgo func() {", "\t\t\t\t\t%szoo.T%d(%s)" % (assign, k, args), "\t\t\t\t\tclose(done)", "\t\t\t\t}()", "\t\t\t\t<-done",
-                '\t\t\tcase "deep":', "\t\t\t\tdone := make(chan struct{})", "\t\t\t\tgo func() {", "\t\t\t\t\tdeepCall(300, func() { %szoo.T%d(%s) })" % (assign, k, args), "\t\t\t\t\tclose(done)", "\t\t\t\t}()", "\t\t\t\t<-done",
+                '\t\t\tcase "go":', "\t\t\t\tdone := make(chan interface{})", "\t\t\t\tgo func() {", "\t\t\t\t\tdefer func() { done <- recover() }()", "\t\t\t\t\t%szoo.T%d(%s)" % (assign, k, args), "\t\t\t\t}()",
+                "\t\t\t\tif e := <-done; e != nil {", "\t\t\t\t\tpanic(e)", "\t\t\t\t}",
+                '\t\t\tcase "deep":', "\t\t\t\tdone := make(chan interface{})", "\t\t\t\tgo func() {", "\t\t\t\t\tdefer func() { done <- recover() }()", "\t\t\t\t\tdeepCall(300, func() { %szoo.T%d(%s) })" % (assign, k, args), "\t\t\t\t}()",
+                "\t\t\t\tif e := <-done; e != nil {", "\t\t\t\t\tpanic(e)", "\t\t\t\t}",
                 "\t\t\t}",
                 "\t\t\tok := false", "\t\t\tswitch want {",
                 "\t\t\tcase 0:", "\t\t\t\tok = %s" % rescheck(200),
